@@ -225,6 +225,13 @@ func genAdmitCase(r *Rng, i int, k AdmitKnobs) *AdmitCase {
 	}
 	pod := pc.Pod
 	pod.Name = a.Name
+	if kind != "ns" && a.Op == admissionv1.Create && r.Chance(1, 12) { // created from generateName: the request and the object have no name yet
+		a.Name, pod.Name, pod.GenerateName = "", "", "gen-"
+		tag("name.generated")
+	}
+	if r.Chance(1, 4) { // request attributes no property mentions: the API version of the resource, the kind
+		a.AttrNoise = 1 + r.Intn(3)
+	}
 	if r.Chance(1, 3) || k.ExemptHeavy {
 		rc := pickName(r, a.ExRC, "rc")
 		pod.Spec.RuntimeClassName = &rc
